@@ -177,4 +177,37 @@ def ok (tr : Transport) (cfg : Cfg) (acc : Accept) (f : Failure) (o : Out) : Boo
 
 end Spec
 
+/-! ## wrapping, endpoints (round 5) -/
+
+/-- position of a class in the precedence order (`priority`); "anything else" comes last -/
+def Action.rank : Action → Nat
+  | .respond .authn => 0
+  | .respond .authz => 1
+  | .respond .comm => 2
+  | .respond .precond => 3
+  | .respond .noRule => 4
+  | .redirect => 5
+  | .respond .internal => 6
+
+/-- the class the property's table gives a failure of the token endpoint of an `oauth2_client_credentials` strategy:
+"communication or timeout 502" whenever heimdall could not talk to the token endpoint or was refused a token by it;
+a `200` it cannot parse is heimdall's own "anything else" (as measured on the code) -/
+def TokenOutcome.expected : TokenOutcome → Option Action
+  | .issued => none
+  | .sendFailed _ => some (.respond .comm)
+  | .sendTimedOut _ => some (.respond .comm)
+  | .unexpectedStatus => some (.respond .comm)
+  | .badRequest _ => some (.respond .comm)
+  | .okErrorDocument => some (.respond .comm)
+  | .okUnparsable => some (.respond .internal)
+
+/-- the cause `net/http` reports for a failed call: a foreign error or an error of package `context`, possibly wrapped
+(`*url.Error`, `*net.OpError`, …) — nothing heimdall classifies -/
+def Err.unclassified (e : Err) : Bool := e.leaves.all fun l => l.action == .respond .internal
+
+def TokenOutcome.causeUnclassified : TokenOutcome → Bool
+  | .sendFailed c => c.unclassified
+  | .sendTimedOut c => c.unclassified
+  | _ => true
+
 end Heimdall.ErrMap
